@@ -134,6 +134,7 @@ def race_phase(run, tier, wd):
 
 def run_check(prop, tier, replay=None):
     run = vlib.Run(prop, tier, "model_checking")
+    run.write_evidence = replay is None
     wd = vlib.scratch_dir(prop)
     try:
         binary = vlib.build_harness(wd)
